@@ -21,7 +21,7 @@ func init() {
 			Rule: "stateless exploration of ALL interleavings (no preemption bound; with two commands: up to 2 (quick) / 4 (thorough) preemptions) of the real runner code (runner.go / command_storer.go rewritten so that every go statement, channel send, select and time.Sleep is a scheduling point of a cooperative scheduler; virtual clock) for scripts L0 <<c1 7 true>> <<set $k += 1>> L1 <<c2>> <<set $k += 1>> L2 with one or two commands; " +
 				"each command gets a handler shape from {raw AddCommand with a channel already holding nil / an error; raw with the channel completed later by a completer thread (send nil, send error, close; buffered, and unbuffered with the sender parked in its send until a poll takes the value); converted func(..), func(..) error (nil / error), func(..) <-chan error, func(..) chan error; built-in wait 0 / 0.5 / 1 / 1.5 / 0.0009 / 1.0005; unregistered name}, asynchronous handlers ungated or gated (a gate that only the host opens after p in 0..2 polls); " +
 				"the host thread performs up to 8 Next calls and, for wait, advances the virtual clock by steps from {n/2, n/2-1ns, 1ns}; oracle per execution: no Next ever blocks (host stuck inside the API with no enabled thread), no panic; the results follow L0 W* [E]? L1(k=1) W* [E]? L2(k=2) end with W = ErrWaitingForCommandCompletion exactly while completion cannot have been reported, E exactly once iff the command reports an error, " +
-				"no W once completion has been reported and every other thread is quiet; every executed command statement invokes its handler exactly once with (7, true); wait n never completes at a virtual time below n seconds after it started; R: a pending (gated) command abandoned by RestoreAt and the same command statement executed again - the second execution must wait for its own handler; RF: one command of every shape and, before one of the first three polls, a RestoreAt of a snapshot naming an unknown node, which is refused and changes nothing (the pending command is still waited for, its error still surfaced once); plus a free-running -race pass over the same shapes; " +
+				"no W once completion has been reported and every other thread is quiet; every executed command statement invokes its handler exactly once with (7, true); wait n never completes at a virtual time below n seconds after it started; R: a pending (gated) command abandoned by RestoreAt and the same command statement executed again - the second execution must wait for its own handler; TAIL: the same with the (last) command as last statement of its node - nothing is left to run while it is pending; RF: one command of every shape and, before one of the first three polls, a RestoreAt of a snapshot naming an unknown node, which is refused and changes nothing (the pending command is still waited for, its error still surfaced once); plus a free-running -race pass over the same shapes; " +
 				"a case is one complete schedule; non-trivial = schedule with at least one poll answered by ErrWaitingForCommandCompletion",
 			StatesMean:  "distinct complete schedules (executions) of the rewritten code; transitions = scheduling points granted",
 			Assumptions: []string{"sequentially consistent executions at the granularity of the hooked operations; unsynchronised accesses between hooks are the subject of the separate -race pass", "unbuffered channels are modelled as a rendezvous between a parked sender and the polling select", "the rewriting rules are syntactic and local (cmd/vrewrite); the rewritten package is the code that runs"},
@@ -195,6 +195,8 @@ type c10Config struct {
 	// refuseBefore > 0: before the call of Next with this index the host tries to restore a snapshot that names an unknown
 	// node; the restore is refused and changes nothing (a command that is pending stays pending)
 	refuseBefore int
+	// tailLast: the last command is the last statement of the node (nothing is left to run while it is pending)
+	tailLast bool
 }
 
 func (cfg *c10Config) describe() string {
@@ -209,6 +211,9 @@ func (cfg *c10Config) describe() string {
 	if cfg.refuseBefore > 0 {
 		s = append(s, fmt.Sprintf("refused RestoreAt before call %d", cfg.refuseBefore+1))
 	}
+	if cfg.tailLast {
+		s = append(s, "the last command is the last statement of the node")
+	}
 	return strings.Join(s, " ; ")
 }
 
@@ -216,7 +221,11 @@ func (cfg *c10Config) script() string {
 	var b strings.Builder
 	b.WriteString("title: A\n---\n<<set $k = 0>>\nL0\n")
 	for i, c := range cfg.cmds {
-		b.WriteString(c.text(fmt.Sprintf("c%d", i+1)) + "\n<<set $k += 1>>\n" + fmt.Sprintf("L%d {$k}\n", i+1))
+		b.WriteString(c.text(fmt.Sprintf("c%d", i+1)) + "\n")
+		if cfg.tailLast && i == len(cfg.cmds)-1 {
+			break
+		}
+		b.WriteString("<<set $k += 1>>\n" + fmt.Sprintf("L%d {$k}\n", i+1))
 	}
 	b.WriteString("===\n")
 	return b.String()
@@ -323,6 +332,9 @@ func c10Body(cfg *c10Config, maxCalls int, results *[]string) (clause, detail st
 		}
 		c := cfg.cmds[cur]
 		wantLine := fmt.Sprintf("L%d %d", cur+1, cur+1)
+		if cfg.tailLast && cur == len(cfg.cmds)-1 {
+			wantLine = "end" // nothing follows the command: once it has completed the dialogue ends
+		}
 		canBeDone := !c.shape.async || !c.gated || c.gateOpen
 		mustWait := c.shape.async && ((c.gated && !c.gateOpen) || (c.shape.wait > 0 && clock < c.startClk+time.Duration(c.shape.wait*float64(time.Second))))
 		switch r {
@@ -518,6 +530,28 @@ func runC10(ctx *report.Ctx) {
 			return
 		}
 		runCfg(c, "RF", cfg)
+	})
+	// TAIL: the command is the last statement of the node (optionally after a first command): while it is pending nothing
+	// is left to run, and still Next answers "waiting" until it has completed, then reports its error once, then the end
+	part(ctx, "TAIL", -1, func(c *explore.Chooser) {
+		mk := func(si int, label string) *c10Cmd {
+			sh := c10Shapes[si]
+			cmd := &c10Cmd{shape: sh, gate: make(chan struct{}, 1)}
+			if sh.gatable && c.Choose(2, label+"-gated") == 1 {
+				cmd.gated = true
+				cmd.openAt = c.Choose(3, label+"-open-after")
+			}
+			return cmd
+		}
+		cfg := &c10Config{tailLast: true}
+		if c.Choose(2, "first-command") == 1 {
+			cfg.cmds = append(cfg.cmds, mk(5, "c0")) // converted, no result
+		}
+		cfg.cmds = append(cfg.cmds, mk(c.Choose(len(c10Shapes), "shape1"), "c1"))
+		if !c.Mine() {
+			return
+		}
+		runCfg(c, "TAIL", cfg)
 	})
 	// R: a pending command abandoned by RestoreAt, then the same command statement executed again: the second
 	// execution must wait for its own handler (no result of the abandoned execution may be taken for it)
